@@ -592,7 +592,9 @@ def check_loaded(text):
                     return [Discrepancy(f"loaded:{how}:order", f"{how}: key order changed", {"text": text})]
                 if deep or a is d:
                     k0 = next(iter(OrderedDict.keys(b)), None)
-                    if k0 is not None and isinstance(k0, str) and (k0.upper() not in b or b.get(k0.upper()) is not OrderedDict.__getitem__(b, k0)):
+                    # (only keys whose upper-case form folds back to them: "straße".upper().lower() is "strasse")
+                    if k0 is not None and isinstance(k0, str) and k0.upper().lower() == k0 and \
+                            (k0.upper() not in b or b.get(k0.upper()) is not OrderedDict.__getitem__(b, k0)):
                         return [Discrepancy(f"loaded:{how}:casefold", f"{how}: the copy lost case-insensitive lookup", {"text": text})]
                 if deep:
                     pairs.extend(zip(OrderedDict.values(a), OrderedDict.values(b)))
